@@ -23,6 +23,7 @@ func init() {
 		Run: runC13,
 		Controls: []Control{
 			{Name: "export-flags-unknown-attributes-in-place", File: "routingtable/adjRIBOut/adj_rib_out.go", Old: "\tif a.sessionAttrs.IBGP {\n\t\treturn a.checkPropagateUpdateIBGP(pfx, p)\n\t}\n", New: "\tfor i := range p.BGPPath.UnknownAttributes {\n\t\tattr := &p.BGPPath.UnknownAttributes[i]\n\t\tattr.Partial = true\n\t}\n\tif a.sessionAttrs.IBGP {\n\t\treturn a.checkPropagateUpdateIBGP(pfx, p)\n\t}\n", Expect: "attribute-sequences-written-only-when-fresh"},
+			{Name: "redistribute-check-writes-its-input", File: "route/path.go", Old: "\tp = p.Copy()\n\n\tif p.Type == newPathType {\n\t\tp.RedistributedFrom = 0\n\t\treturn p, false\n", New: "\tcp := p.Copy()\n\n\tif p.Type == newPathType {\n\t\tp.RedistributedFrom = 0\n\t\treturn cp, false\n\t}\n\tp = cp\n\tif false {\n", Expect: "check-redistribute-leaves-its-input-alone"},
 			{Name: "copy-only-for-rewriting-sessions", File: "routingtable/adjRIBOut/adj_rib_out.go", Old: "\tp, redist := p.CheckRedistribute(route.BGPPathType)\n\tif redist {\n\t\terr := a.redistributePath(p)", New: "\tredist := false\n\tif p.Type != route.BGPPathType || !a.sessionAttrs.RouteServerClient {\n\t\tp, redist = p.CheckRedistribute(route.BGPPathType)\n\t}\n\tif redist {\n\t\terr := a.redistributePath(p)", Expect: "own-copy-before-session-rewrites"},
 			{Name: "per-nlri-copy-written-by-hand", File: "protocols/bgp/server/fsm_address_family.go", Old: "\t\tp := path.Copy()\n\t\tp.BGPPath.PathIdentifier = n.PathIdentifier\n", New: "\t\tp := &route.Path{Type: path.Type, LTime: path.LTime, BGPPath: &route.BGPPath{BGPPathA: path.BGPPath.BGPPathA.Copy(), ASPath: path.BGPPath.ASPath, ASPathLen: path.BGPPath.ASPathLen, Communities: path.BGPPath.Communities, LargeCommunities: path.BGPPath.LargeCommunities}}\n\t\tp.BGPPath.PathIdentifier = n.PathIdentifier\n", Expect: "hand-written-copy-names-every-field"},
 			{Name: "copy-skips-empty-lists", File: "route/bgp_path.go", Old: "\tif cp.ASPath != nil {\n", New: "\tif cp.ASPath != nil && len(*cp.ASPath) > 0 {\n", Expect: "copy-gives-own-list-headers"},
@@ -37,6 +38,7 @@ func init() {
 }
 
 func runC13(c *core.Ctx) {
+	checkRedistributeLeavesItsInputAlone(c, "check-redistribute-leaves-its-input-alone")
 	ownCopyBeforeSessionRewrites(c, "own-copy-before-session-rewrites")
 	handWrittenCopiesAreComplete(c, "hand-written-copy-names-every-field")
 	attributeSequencesFresh(c)
